@@ -197,7 +197,8 @@ def obligations(tier):
             return stub
         for opt_name, kwargs in [("plain", dict(return_errors=True)), ("nn_modes={0}", dict(return_errors=True, nn_modes={0})),
                                  ("fixed_mode_0", dict(return_errors=True, fixed_modes=[0])), ("normalize_factors", dict(return_errors=True, normalize_factors=True)),
-                                 ("normalize_factors,fixed_mode_0", dict(return_errors=True, normalize_factors=True, fixed_modes=[0]))]:
+                                 ("normalize_factors,fixed_mode_0", dict(return_errors=True, normalize_factors=True, fixed_modes=[0])),
+                                 ("fixed_last_mode", dict(return_errors=True, fixed_modes=[N - 1])), ("normalize_factors,fixed_last_mode", dict(return_errors=True, normalize_factors=True, fixed_modes=[N - 1]))]:
             add("_nn_cp:non_negative_parafac_hals", f"N={N},{opt_name}", cp_setup(N),
                 lambda I, kwargs=kwargs: run_cp_like(_nn.non_negative_parafac_hals, _nn, I, (0, 1), dict(kwargs), stubs=dict(hals_nnls=hals_stub_factory(I))),
                 cp_post, dict(order=N, options=opt_name), side_nonzero=("normalize" in opt_name))
